@@ -26,7 +26,7 @@ EndOf(r) == IF r < NRuns THEN Starts[r + 1] - 1 ELSE N
 Hdr(r) == Lines[Starts[r]]
 Idx(r) == (Starts[r] + 1)..EndOf(r)
 
-WorkerEvs == {"batched", "batcherr", "commit", "track", "untrack", "storefail"}
+WorkerEvs == {"batched", "batcherr", "commit", "track", "untrack", "storefail", "readfail"}
 
 -----------------------------------------------------------------------------
 (* 1. property predicates over the recorded lines *)
@@ -65,7 +65,7 @@ RefuseBad(r) == {j \in Idx(r) : Lines[j].ev = "ret" /\ Lines[j].res = "full" /\
                       Cardinality(AccIdx(r, CallOf(r, j))) - NDeq(r, CallOf(r, j)) >= Hdr(r).maxq)}
 \* any other error must come from an injected datastore failure on a direct write
 ErrBad(r) == {j \in Idx(r) : Lines[j].ev = "ret" /\ Lines[j].res = "err" /\
-                 ~(~Hdr(r).batching /\ \E k \in CallOf(r, j)..j : Lines[k].ev = "storefail")}
+                 ~(~Hdr(r).batching /\ \E k \in CallOf(r, j)..j : Lines[k].ev \in {"storefail", "readfail"})}
 
 \* commit when the batch reaches its size limit or its age limit
 WorkerIdx(r) == {k \in Idx(r) : Lines[k].ev \in {"batched", "batcherr", "commit"}}
@@ -103,9 +103,11 @@ PendingBad(r) ==
           /\ \A k \in Idx(r) : (k > LastOkCommit(r, j) /\ k < j) => Lines[k].ev # "batched")}
 
 FaultClass(r) ==
-    IF \E j \in Idx(r) : Lines[j].ev = "commit" /\ Lines[j].reason = "age" /\ ~Lines[j].ok THEN "age-commit-failed"
+    IF \E j \in Idx(r) : Lines[j].ev = "batcherr" THEN "item-error"
+    ELSE IF \E j \in Idx(r) : Lines[j].ev = "commit" /\ Lines[j].reason = "age" /\ ~Lines[j].ok THEN "age-commit-failed"
     ELSE IF \E j \in Idx(r) : Lines[j].ev = "commit" /\ ~Lines[j].ok THEN "size-commit-failed"
     ELSE IF \E j \in Idx(r) : Lines[j].ev = "storefail" THEN "write-failed"
+    ELSE IF \E j \in Idx(r) : Lines[j].ev = "readfail" THEN "read-failed"
     ELSE "nofault"
 
 Verdict(r) == [run |-> Hdr(r).run, fclass |-> FaultClass(r),
@@ -116,19 +118,19 @@ Verdict(r) == [run |-> Hdr(r).run, fclass |-> FaultClass(r),
 -----------------------------------------------------------------------------
 (* 2. conformance to CrdtPinsetBatch *)
 
-VARIABLES run, i, pend, parm, expect
-tvars == <<vars, run, i, pend, parm, expect>>
+VARIABLES run, i, pend, parm, rparm, expect
+tvars == <<vars, run, i, pend, parm, rparm, expect>>
 basevars == vars
 
 ASSUME \A r \in 1..(2 * NRuns) : TLCSet(r, 0)
 
-CfgOf(h, ar) == [batching |-> h.batching, maxsize |-> h.maxsize, maxq |-> h.maxq, agereset |-> ar]
+CfgOf(h, ar, es) == [batching |-> h.batching, maxsize |-> h.maxsize, maxq |-> h.maxq, agereset |-> ar, emptyskip |-> es]
 
 TraceInit ==
     /\ run \in 1..NRuns
     /\ i = Starts[run] + 1
-    /\ \E ar \in BOOLEAN : InitWith(CfgOf(Hdr(run), ar))
-    /\ pend = <<>> /\ parm = 0 /\ expect = <<>>
+    /\ \E ar, es \in BOOLEAN : InitWith(CfgOf(Hdr(run), ar, es))
+    /\ pend = <<>> /\ parm = 0 /\ rparm = 0 /\ expect = <<>>
 
 More == i <= EndOf(run)
 L == Lines[i]
@@ -136,31 +138,41 @@ Match(e, l) == \A f \in DOMAIN e : f \in DOMAIN l /\ l[f] = e[f]
 
 TCall == /\ More /\ L.ev = "call" /\ pend = <<>>
          /\ pend' = <<OpOf(L)>> /\ res' = "none" /\ i' = i + 1
-         /\ UNCHANGED <<cfg, pinset, queue, inhand, delta, cur, timer, wpc, fails, accepted, ncomm, nbatch, tracked, out,
-                        run, parm, expect>>
+         /\ UNCHANGED <<cfg, pinset, queue, inhand, delta, cur, timer, wpc, fails, rfails, accepted, taken, ndropped,
+                        ncomm, nbatch, tracked, out, run, parm, rparm, expect>>
 TSubmit == /\ pend # <<>> /\ res = "none" /\ pend[1] \in Ops
            /\ Submit(pend[1])
            /\ expect' = expect \o out'
-           /\ UNCHANGED <<run, i, pend, parm>>
+           /\ UNCHANGED <<run, i, pend, parm, rparm>>
 TRet == /\ More /\ L.ev = "ret" /\ pend # <<>> /\ res # "none" /\ L.res = res
         /\ (~cfg.batching => expect = <<>>)
         /\ pend' = <<>> /\ i' = i + 1
-        /\ UNCHANGED <<basevars, run, parm, expect>>
+        /\ UNCHANGED <<basevars, run, parm, rparm, expect>>
 TArmCall == /\ More /\ L.ev = "armcall" /\ parm = 0 /\ parm' = L.n /\ i' = i + 1
-            /\ UNCHANGED <<basevars, run, pend, expect>>
-TDoArm == /\ parm > 0 /\ Arm(parm) /\ parm' = -1 /\ UNCHANGED <<run, i, pend, expect>>
+            /\ UNCHANGED <<basevars, run, pend, rparm, expect>>
+TDoArm == /\ parm > 0 /\ Arm(parm) /\ parm' = -1 /\ UNCHANGED <<run, i, pend, rparm, expect>>
 TArmRet == /\ More /\ L.ev = "armret" /\ parm = -1 /\ parm' = 0 /\ i' = i + 1
-           /\ UNCHANGED <<basevars, run, pend, expect>>
+           /\ UNCHANGED <<basevars, run, pend, rparm, expect>>
+\* read faults armed by the driver (harness datastore: the next set.Rmv query fails)
+TRArmCall == /\ More /\ L.ev = "rarmcall" /\ rparm = 0 /\ rparm' = L.n /\ i' = i + 1
+             /\ UNCHANGED <<basevars, run, pend, parm, expect>>
+TDoRArm == /\ rparm > 0 /\ RArm(rparm) /\ rparm' = -1 /\ UNCHANGED <<run, i, pend, parm, expect>>
+TRArmRet == /\ More /\ L.ev = "rarmret" /\ rparm = -1 /\ rparm' = 0 /\ i' = i + 1
+            /\ UNCHANGED <<basevars, run, pend, parm, expect>>
+\* the driver removes unused read faults before it reads the state itself
+TRDisarm == /\ More /\ L.ev = "rdisarm" /\ rfails' = 0 /\ i' = i + 1 /\ out' = <<>>
+            /\ UNCHANGED <<cfg, pinset, queue, inhand, delta, cur, timer, wpc, fails, accepted, taken, ndropped,
+                           ncomm, nbatch, tracked, res, run, pend, parm, rparm, expect>>
 TWorkerOut == /\ More /\ L.ev \in WorkerEvs /\ expect # <<>> /\ Match(Head(expect), L)
               /\ expect' = Tail(expect) /\ i' = i + 1
-              /\ UNCHANGED <<basevars, run, pend, parm>>
+              /\ UNCHANGED <<basevars, run, pend, parm, rparm>>
 TWorkerStep == /\ expect = <<>> /\ Worker /\ expect' = out'
-               /\ UNCHANGED <<run, i, pend, parm>>
+               /\ UNCHANGED <<run, i, pend, parm, rparm>>
 TObs == /\ More /\ L.ev = "obs"
         /\ WellFormedPins(L.pins) /\ ObsPins(L.pins) = pinset
-        /\ i' = i + 1 /\ UNCHANGED <<basevars, run, pend, parm, expect>>
+        /\ i' = i + 1 /\ UNCHANGED <<basevars, run, pend, parm, rparm, expect>>
 
-TraceNext == TCall \/ TSubmit \/ TRet \/ TArmCall \/ TDoArm \/ TArmRet \/ TWorkerOut \/ TWorkerStep \/ TObs
+TraceNext == TCall \/ TSubmit \/ TRet \/ TArmCall \/ TDoArm \/ TArmRet \/ TRArmCall \/ TDoRArm \/ TRArmRet \/ TRDisarm \/ TWorkerOut \/ TWorkerStep \/ TObs
 TraceSpec == TraceInit /\ [][TraceNext]_tvars
 
 \* the design-level invariants are also evaluated on every state a recorded run reaches
